@@ -19,14 +19,15 @@
 #include <amgcl/adapter/block_matrix.hpp>
 #include <amgcl/value_type/static_matrix.hpp>
 #include <amgcl/reorder/cuthill_mckee.hpp>
+#include <amgcl/coarsening/tentative_prolongation.hpp>
 #include "harness_main.hpp"
 
 const char *CHECK_ID = "C09";
 using namespace cm;
 using hz::Plan; using hz::Result; using hz::Violation;
 
-enum Comp { C_VECOPS, C_INNER, C_PRODUCT, C_STRUCT, C_SPECTRAL, C_GS, C_ILU, C_HIER, C_SOLVE, C_BLOCK, NCOMP };
-static const char *comp_name[] = { "vecops", "inner_product", "product", "struct_kernels", "spectral_radius", "gauss_seidel", "ilu_solve", "hierarchy", "solve", "block_adapters" };
+enum Comp { C_VECOPS, C_INNER, C_PRODUCT, C_STRUCT, C_SPECTRAL, C_GS, C_ILU, C_HIER, C_SOLVE, C_BLOCK, C_TENTATIVE, NCOMP };
+static const char *comp_name[] = { "vecops", "inner_product", "product", "struct_kernels", "spectral_radius", "gauss_seidel", "ilu_solve", "hierarchy", "solve", "block_adapters", "tentative_prolongation" };
 
 // what a component run returns: named items, each bitwise-comparable (bits) plus values for tolerance comparison
 struct Item { std::string name; std::vector<double> v; uint64_t extra; int cls; double scale; std::map<std::pair<long,long>,double> canon; bool is_matrix = false; };
@@ -59,7 +60,7 @@ static void add_matrix(Output &o, const std::string &name, const amgcl::backend:
 
 struct World {
     int comp; gen::Csr A, B; std::vector<double> x, y, z; long sub; long k; int sort; int fam;
-    long coarsening, relax, solver, coarse_enough, npre, ncycle, power_iters, maxiter;
+    long coarsening, relax, solver, coarse_enough, npre, ncycle, power_iters, maxiter, nullspace;
 };
 
 typedef amgcl::make_solver<
@@ -70,12 +71,20 @@ static const char *coarsening_names[] = { "ruge_stuben", "aggregation", "smoothe
 static const char *relax_names[] = { "gauss_seidel", "ilu0", "iluk", "ilup", "ilut", "damped_jacobi", "spai0", "spai1", "chebyshev" };
 static const char *solver_names[] = { "cg", "bicgstab", "bicgstabl", "gmres", "lgmres", "fgmres", "idrs", "richardson" };
 
+template <class P> static auto set_nullspace(P &c, const World &w, int) -> decltype(c.nullspace.cols, void()) {
+    if (w.nullspace <= 0) return;
+    const long n = w.A.n; c.nullspace.cols = (int)w.nullspace; c.nullspace.B.resize((size_t)n * w.nullspace);
+    for (long i = 0; i < n; ++i) for (long k = 0; k < w.nullspace; ++k) c.nullspace.B[i * w.nullspace + k] = k == 0 ? 1.0 : std::pow((double)(i + 1) / n, (double)k);
+}
+template <class P> static void set_nullspace(P &, const World &, long) {}
+
 template <template <class> class Coarsening>
 static void hier_run(const World &w, Output &o, int cls) {
     typedef amgcl::amg<DBackend, recorder<Coarsening>::template type, amgcl::relaxation::spai0> AMG;
     typename AMG::params prm;
     prm.coarse_enough = (unsigned)w.coarse_enough; prm.npre = (unsigned)w.npre; prm.npost = (unsigned)w.npre; prm.ncycle = (unsigned)w.ncycle;
     if (w.ncycle > 1) prm.max_levels = 4;      // a W-cycle over a deep hierarchy costs 2^levels
+    set_nullspace(prm.coarsening, w, 0);         // near-null-space vectors: per-thread QR objects are reused across aggregates
     level_log().clear();
     gen::Csr A = w.A;
     AMG amg(A.tie(), prm);
@@ -218,7 +227,21 @@ static Output run_component(const World &w) {
         bool conv = res < 1e-8 && std::sqrt((double)(rr / (ff > 0 ? ff : 1))) < 1e-6;
         o.add("solution", x, (loose && !conv) ? SKIP : tid ? TIDSEEDED : (loose ? ROUNDING : (conv ? REDUCTION : SAME_NT_ONLY)), 0, max_abs(x));
         o.add1("iters", (double)it, loose ? SKIP : SAME_NT_ONLY, 0); o.add1("resid", res, loose ? SKIP : SAME_NT_ONLY, 0);
-        o.add1("converged", conv ? 1 : 0, loose ? SKIP : BITWISE);
+        o.add1("converged", conv ? 1 : 0, loose ? SKIP : SAME_NT_ONLY);      // whether the budget suffices may flip with reduction rounding / the thread-seeded IDR(s) space
+        break; }
+    case C_TENTATIVE: {
+        // public building block of all aggregation coarsenings: per-thread QR objects are reused across the aggregates
+        // of a thread's chunk, so what an aggregate gets must not depend on which aggregate its thread handled before
+        sim::rng r((uint64_t)w.k * 7919 + (uint64_t)w.x.size() + (uint64_t)(w.x.empty() ? 0 : (long)(w.x[0] * 1e6)), "aggr");
+        long np = std::max<long>(n, 1), naggr = std::max<long>(1, np / (1 + (long)r.below(4)));
+        std::vector<ptrdiff_t> id(np); std::vector<long> cnt(naggr, 0);
+        for (long i = 0; i < np; ++i) { id[i] = i < naggr ? i : (r.chance(0.1) ? -1 : (ptrdiff_t)r.below(naggr)); if (id[i] >= 0) ++cnt[id[i]]; }
+        amgcl::coarsening::nullspace_params ns; ns.cols = (int)std::max<long>(w.nullspace, 1); ns.B.resize((size_t)np * ns.cols);
+        for (long i = 0; i < np; ++i) for (int k = 0; k < ns.cols; ++k) ns.B[i * ns.cols + k] = k == 0 ? 1.0 : std::pow((double)(i + 1) / np, (double)k) + 0.25 * std::sin((double)(i * (k + 1)));
+        auto Pt = amgcl::coarsening::tentative_prolongation<DMatrix>((size_t)np, (size_t)naggr, id, ns, 1);
+        add_matrix(o, "P_tent", *Pt);
+        bool all_big = true; for (long a = 0; a < naggr; ++a) if (cnt[a] < ns.cols) all_big = false;
+        if (all_big) o.add("coarse_nullspace", ns.B); else o.add1("coarse_nullspace_skipped", 1);
         break; }
     case C_BLOCK: {
         auto A = to_crs(w.A); be::sort_rows(*A);
@@ -257,7 +280,7 @@ static Output run_component(const World &w) {
 Plan generate(uint64_t seed, uint64_t run, bool thorough) {
     sim::rng r(seed, "world", run);
     Plan p;
-    static const int comps[] = { C_VECOPS, C_INNER, C_PRODUCT, C_PRODUCT, C_STRUCT, C_SPECTRAL, C_GS, C_GS, C_GS, C_ILU, C_ILU, C_HIER, C_HIER, C_SOLVE, C_BLOCK };
+    static const int comps[] = { C_VECOPS, C_INNER, C_PRODUCT, C_PRODUCT, C_STRUCT, C_SPECTRAL, C_GS, C_GS, C_GS, C_ILU, C_ILU, C_HIER, C_HIER, C_SOLVE, C_BLOCK, C_TENTATIVE };
     int comp = comps[r.below(sizeof comps / sizeof comps[0])];
     p.set("comp", comp, comp);
     int fam;
@@ -292,6 +315,7 @@ Plan generate(uint64_t seed, uint64_t run, bool thorough) {
     p.set("power_iters", r.chance(0.3) ? r.range(1, 8) : 0, 0);
     // bound the simulated work: a non-converging solve on a large team costs fiber switches, not insight
     p.set("maxiter", (p.get("nt") > 8 || p.get("ncycle") > 1) ? 25 : 100, 1);
+    p.set("nullspace", ((comp == C_HIER && r.chance(0.4)) || comp == C_TENTATIVE) ? r.range(1, 4) : 0, 0);
     p.set("cross_switch", r.chance(0.05) ? 1 : 0, 0);      // occasionally compare across the 16/17 SpGEMM switch
     draw_schedule(r, p.sched, (int)p.get("nt"));
     p.sched.max_decisions = 2000000000ULL;      // long non-converging solves at 32 threads are legitimate; the wall-clock watchdog bounds them
@@ -317,7 +341,7 @@ static World make_world(const Plan &p) {
     w.z = gen::make_vector(w.A.n, vs + 2, 0);
     w.sub = p.get("sub"); w.k = p.get("k"); w.sort = (int)p.get("sort");
     w.coarsening = p.get("coarsening"); w.relax = p.get("relax"); w.solver = p.get("solver");
-    w.coarse_enough = p.get("coarse_enough"); w.npre = p.get("npre"); w.ncycle = p.get("ncycle"); w.power_iters = p.get("power_iters"); w.maxiter = p.get("maxiter", 100);
+    w.coarse_enough = p.get("coarse_enough"); w.npre = p.get("npre"); w.ncycle = p.get("ncycle"); w.power_iters = p.get("power_iters"); w.maxiter = p.get("maxiter", 100); w.nullspace = p.get("nullspace", 0);
     return w;
 }
 
